@@ -25,12 +25,13 @@ const shimRoot = "verif/shim/"
 
 // import path -> (shim path, local name)
 var importMap = map[string][2]string{
-	"sync":        {shimRoot + "vsync", "sync"},
-	"sync/atomic": {shimRoot + "vatomic", "atomic"},
-	"context":     {shimRoot + "vcontext", "context"},
-	"time":        {shimRoot + "vtime", "time"},
-	"os":          {shimRoot + "vos", "os"},
-	"math/rand":   {shimRoot + "vrand", "rand"},
+	"sync":                             {shimRoot + "vsync", "sync"},
+	"sync/atomic":                      {shimRoot + "vatomic", "atomic"},
+	"context":                          {shimRoot + "vcontext", "context"},
+	"time":                             {shimRoot + "vtime", "time"},
+	"os":                               {shimRoot + "vos", "os"},
+	"math/rand":                        {shimRoot + "vrand", "rand"},
+	"github.com/klauspost/compress/s2": {shimRoot + "vs2", "s2"},
 }
 
 var (
